@@ -114,6 +114,32 @@ func VfC31_Over() {
 	vfAssert("C31.over.immutable.second", vfC31Equal(b, b0))
 }
 
+// VfC31_Shared: one earlier source layered under two different later sources.
+// Its lists have spare capacity (as every slice built by append, or returned
+// by an earlier merge, may have): the two results must not share storage, so
+// the second merge leaves the first result as it was, and the shared source
+// is unchanged.
+//
+//vf:unwind 80
+//vf:bound inputs earlier source with the three list settings of 1 element and capacity 4; two later sources with lists of 0..2 symbolic elements
+func VfC31_Shared() {
+	mk := func(tag string) []string {
+		l := make([]string, 0, 4)
+		return append(l, tag)
+	}
+	a := &Config{EventHandlers: mk("ah"), StartJoin: mk("as"), RetryJoin: mk("ar")}
+	b1 := &Config{EventHandlers: vfC31List("b1.h"), StartJoin: vfC31List("b1.s"), RetryJoin: vfC31List("b1.r")}
+	b2 := &Config{EventHandlers: vfC31List("b2.h"), StartJoin: vfC31List("b2.s"), RetryJoin: vfC31List("b2.r")}
+	a0 := vfC31Copy(a)
+	r1 := MergeConfig(a, b1)
+	keep := vfC31Copy(r1)
+	r2 := MergeConfig(a, b2)
+	vfReach("C31.shared.done")
+	vfAssert("C31.shared.first.result.kept", vfC31Equal(r1, keep))
+	vfAssert("C31.shared.source.kept", vfC31Equal(a, a0))
+	vfAssert("C31.shared.second.result", vfC31Equal(r2, vfC31Expect(a0, b2)))
+}
+
 //vf:unwind 80
 //vf:paths quick=400000 thorough=4000000
 //vf:bound inputs each field in turn symbolic in three sources
